@@ -158,7 +158,7 @@ def rule_bind(ctx, classes=SKETCH_CLASSES):
 # attr-type
 # ---------------------------------------------------------------------------
 
-def rule_attr_type(ctx, classes=SKETCH_CLASSES, only=None):
+def rule_attr_type(ctx, classes=SKETCH_CLASSES, only=None, narrowing=True):
     """The NumPy scalar constructor of a bound attribute holds every value of the narrowest kernel parameter it feeds
     (that parameter's type is the attribute's intended domain): a narrower constructor silently truncates inputs
     (e.g. seeds >= 2**32) before any kernel sees them."""
@@ -196,7 +196,7 @@ def rule_attr_type(ctx, classes=SKETCH_CLASSES, only=None):
                        "" if okk else "self.%s is built with %r but feeds a %r parameter: larger inputs are truncated before the kernel sees them" % (sa, aty, need[0]))
                 # ... and no kernel parameter the attribute is passed to is narrower than the attribute: Numba casts the argument to
                 # the declared parameter type without a range check
-                if okk:
+                if okk and narrowing:
                     narrow = [c for c in cons if c[0].kind == aty.kind and c[0].bits < aty.bits]
                     # the narrowest consumer defines the domain (previous obligation); a consumer narrower than ANOTHER consumer of the
                     # same attribute in a sibling kernel family is a slip of one signature
